@@ -129,7 +129,11 @@ def bgzf_compress(stream, cuts=(), level=6, empty_blocks_at=()):
     pieces = []
     prev = 0
     for c in cuts + [len(stream)]:
-        pieces.append(stream[prev:c])
+        piece = stream[prev:c]
+        while len(piece) > 64000:           # BSIZE is a uint16: a block (header, deflated payload, trailer) holds at most 64 KiB
+            pieces.append(piece[:64000])
+            piece = piece[64000:]
+        pieces.append(piece)
         prev = c
     out = []
     lens = []
@@ -369,9 +373,15 @@ def expected_row(header, rec):
 
 def summary(rec):
     """compact JSON-able rendering for scenarios"""
+    cigar = "".join(f"{n}{op}" for op, n in rec["cigar"]) or "*"
+    seq, qual = rec["seq"], list(rec["qual"])
+    if len(rec["cigar"]) > 64:      # thousands of operations: abbreviated in reports and replay files
+        cigar = cigar[:24] + f"...({len(rec['cigar'])} operations)"
+        seq = seq[:8] + f"...({len(rec['seq'])} bases)"
+        qual = qual[:4] + [f"...({len(rec['qual'])} values)"]
     return {"refid": rec["refid"], "pos": rec["pos"], "mapq": rec["mapq"], "flag": rec["flag"], "name": rec["name"],
-            "cigar": "".join(f"{n}{op}" for op, n in rec["cigar"]) or "*", "seq": rec["seq"], "pad": rec.get("pad", 0),
-            "qual": list(rec["qual"]), "tags": rec["tags"].hex(), "next": [rec["next_refid"], rec["next_pos"], rec["tlen"]]}
+            "cigar": cigar, "seq": seq, "pad": rec.get("pad", 0),
+            "qual": qual, "tags": rec["tags"].hex(), "next": [rec["next_refid"], rec["next_pos"], rec["tlen"]]}
 
 
 # ---------------------------------------------------------------------------------------------
@@ -536,6 +546,7 @@ def gen_record(tape, n_refs, max_lseq, max_ops, tag="", max_bytes=400, allow_unp
         if tape.boolean(tag + "flag.bit", 1, 8):
             flag |= bit
     cigar = []
+    many = False
     if placement == "mapped":
         refid = tape.draw(n_refs, tag + "refid")
         mag = tape.weighted([(4, 1000), (2, 1 << 16), (1, 1 << 24), (1, (1 << 29) - 400000)], tag + "pos.mag")
@@ -546,6 +557,11 @@ def gen_record(tape, n_refs, max_lseq, max_ops, tag="", max_bytes=400, allow_unp
         ops_cap = min(max_ops, max(budget // 8, 0))
         qcap = min(max_lseq, max((budget - 4 * ops_cap) * 2 // 3 - 2, 0))
         cigar = _gen_cigar(tape, tag, ops_cap, qcap)
+        if tape.feature("bam_many_cigar_ops") and tape.boolean(tag + "cigar.many", 1, 160):
+            # n_cigar_op is a uint16: counts of 16384 and more are valid (4 * n no longer fits 16 bits)
+            n_ops = (16384 if tape.boolean(tag + "cigar.many.edge") else 16385 + tape.draw(49000 if tape.boolean(tag + "cigar.many.big", 1, 4) else 400, tag + "cigar.many.n"))
+            cigar = [("M", 1) if i % 2 == 0 else ("D", 1) for i in range(n_ops)]
+            many = True
     else:
         flag |= 0x4
         flag &= ~0x2 & 0xffff
@@ -564,6 +580,13 @@ def gen_record(tape, n_refs, max_lseq, max_ops, tag="", max_bytes=400, allow_unp
     else:
         cap = min(max_lseq, max(budget * 2 // 3 - 2, 0))
         l_seq = tape.draw(cap + 1, tag + "lseq")
+    if many:
+        # thousands of bases: one repeated letter and one quality value, no draw per base
+        l_seq = 0 if l_seq == 0 else query_length(cigar)
+        letter = "ACGT"[tape.draw(4, tag + "seq.many.ch")]
+        q = tape.draw(94, tag + "qual.many.v")
+        return {"refid": refid, "pos": pos, "mapq": mapq, "flag": flag & ~0x1, "name": name, "cigar": cigar, "seq": letter * l_seq,
+                "qual": [q] * l_seq, "tags": b"", "next_refid": -1, "next_pos": -1, "tlen": 0, "pad": 0}
     alpha = tape.weighted([(4, "ACGT"), (1, "ACGTN"), (2, SEQ_CODE)], tag + "seq.alpha")
     seq = "".join(alpha[tape.draw(len(alpha), tag + "seq.ch")] for _ in range(l_seq))
     pad = 0
